@@ -40,6 +40,15 @@ Definition rnd53_mant (p q : Z) : Z :=
   let t := Z.log2 (P / q) - 52 in
   rne_div P (q * 2 ^ t).
 
+(* binary exponent of the rounding: rnd53 p q = rnd53_mant p q * 2^(rnd53_exp p q) *)
+Definition rnd53_exp (p q : Z) : Z :=
+  let S := Z.log2 q + 53 in
+  let P := p * 2 ^ S in
+  Z.log2 (P / q) - 52 - S.
+
+(* a float given by mantissa and binary exponent, as a fraction *)
+Definition fr_of_me (m e : Z) : Z * Z := if e <? 0 then (m, 2 ^ (- e)) else (m * 2 ^ e, 1).
+
 (* int(n) / 1000, n >= 0 *)
 Definition ts_to_py (n : Z) : Z * Z := rnd53 n 1000.
 (* float * 1000 *)
